@@ -138,6 +138,17 @@ CHECKS = {
              "policies with ties, and real DQN-family / tabular training runs.",
         ref="DESIGN.md §5 C13",
     ),
+    "C17": dict(
+        technique="runtime monitoring: cross-path consistency oracle (four public "
+                  "prediction paths on the same inputs), float64 closed forms, "
+                  "multiset-inclusion checker over index tensors observed at the "
+                  "rebound bootstrap / train_epoch inside train_ensemble, "
+                  "statistical per-dimension spread of ts_inf particles, "
+                  "differential test of the reward model against Pendulum-v1",
+        text="Exploration over ensemble sizes, output dimensions, vector/batch "
+             "inputs, extreme raw log-variances, data-set and batch sizes.",
+        ref="DESIGN.md §5 C17",
+    ),
 }
 
 NOT_YET = {}
